@@ -297,11 +297,16 @@ fn cmd_check(args: &[String]) -> i32 {
     }
     let mut n_viol = 0;
     let mut harness_err = false;
+    // When a change breaks nearly every run there are dozens of violation classes; minimising each
+    // in fresh processes would take an hour. Replay files are written for the first 40 classes, and
+    // minimisation stops 4 minutes after the batch (later classes get their confirmed raw schedule).
+    let post_deadline = Instant::now() + std::time::Duration::from_secs(240);
     for (gi, (_, fs)) in groups.iter().enumerate() {
         n_viol += 1;
         if gi >= 40 {
             continue; // enough replay files; the count is still reported
         }
+        let budget = |b: usize| if Instant::now() > post_deadline { 0 } else { b };
         let exe = std::env::current_exe().unwrap();
         let confirm = |path: &std::path::Path| -> bool {
             let out = std::process::Command::new(&exe).arg("replay").arg(path).output();
@@ -311,7 +316,7 @@ fn cmd_check(args: &[String]) -> i32 {
         // reproduces in a fresh process (an instance may instead depend on state the library kept
         // from other worlds, runs or threads)
         let mut pick = 0;
-        for (ci, cand) in fs.iter().take(6).enumerate() {
+        for (ci, cand) in fs.iter().take(if Instant::now() > post_deadline { 1 } else { 6 }).enumerate() {
             let rp = runner::write_replay(&replay_dir, &id, seed, tier, cand, &cand.schedule, false, gi);
             if confirm(&rp) {
                 pick = ci;
@@ -322,7 +327,7 @@ fn cmd_check(args: &[String]) -> i32 {
         // does the violating world reproduce on its own (fresh process)?
         let raw_path = runner::write_replay(&replay_dir, &id, seed, tier, f, &f.schedule, false, gi);
         let (min_sched, tries, path) = if confirm(&raw_path) {
-            let (m, t) = runner::minimise(&f.schedule, &id, &f.v.oracle, 300);
+            let (m, t) = runner::minimise(&f.schedule, &id, &f.v.oracle, budget(300));
             let p = runner::write_replay(&replay_dir, &id, seed, tier, f, &m, true, gi);
             (m, t, p)
         } else {
@@ -331,7 +336,7 @@ fn cmd_check(args: &[String]) -> i32 {
             println!("  note: the violating world alone does not reproduce; replaying run {} as a whole (hidden state across operations)", f.run);
             match runner::recorded_schedule("run", seed, &id, tier, f.run, 1, &f.v.oracle) {
                 Some(full) => {
-                    let (m, t) = runner::minimise(&full, &id, &f.v.oracle, 200);
+                    let (m, t) = runner::minimise(&full, &id, &f.v.oracle, budget(200));
                     let p = runner::write_replay(&replay_dir, &id, seed, tier, f, &m, true, gi);
                     (m, t, p)
                 }
